@@ -207,10 +207,28 @@ macro_rules! pairs {
             let eb = $cx.sink.emit_count();
             let hb = $cx.hlog.len();
             let _ = take_evals(16);
+            let spelling = ($cx.step as usize + arity) % 5;
+            if arity < 2 && spelling != 0 {
+                $cx.rep.obs("macro_invocations_with_arguments_spelled_as_block_identifier_parenthesised_or_if", 1);
+            }
             let mres = panics::guard(|| {
                 match arity {
-                    0 => { $mac!(bump(0, key.as_str()), bump(1, $mk(&val))); }
-                    1 => { $mac!(bump(0, key.as_str()), bump(1, $mk(&val)), bump(2, keys[0].as_str()) => bump(3, vals[0].as_str())); }
+                    // the arguments are expressions: however they are spelled (call, block, plain identifier,
+                    // parenthesised, `if`), the macro does the same thing
+                    0 => match spelling {
+                        1 => { $mac!(bump(0, key.as_str()), { bump(1, $mk(&val)) }); }
+                        2 => { let k = bump(0, key.as_str()); let v = bump(1, $mk(&val)); $mac!(k, v); }
+                        3 => { $mac!((bump(0, key.as_str())), (bump(1, $mk(&val)))); }
+                        4 => { $mac!(bump(0, key.as_str()), if spelling == 4 { bump(1, $mk(&val)) } else { unreachable!() }); }
+                        _ => { $mac!(bump(0, key.as_str()), bump(1, $mk(&val))); }
+                    },
+                    1 => match spelling {
+                        1 => { $mac!({ bump(0, key.as_str()) }, { bump(1, $mk(&val)) }, { bump(2, keys[0].as_str()) } => { bump(3, vals[0].as_str()) }); }
+                        2 => { let k = bump(0, key.as_str()); let v = bump(1, $mk(&val)); let tk = bump(2, keys[0].as_str()); let tv = bump(3, vals[0].as_str()); $mac!(k, v, tk => tv); }
+                        3 => { $mac!(bump(0, key.as_str()), { let x = bump(1, $mk(&val)); x }, (bump(2, keys[0].as_str())) => (bump(3, vals[0].as_str()))); }
+                        4 => { $mac!(bump(0, key.as_str()), match spelling { 4 => bump(1, $mk(&val)), _ => unreachable!() }, bump(2, keys[0].as_str()) => bump(3, vals[0].as_str())); }
+                        _ => { $mac!(bump(0, key.as_str()), bump(1, $mk(&val)), bump(2, keys[0].as_str()) => bump(3, vals[0].as_str())); }
+                    },
                     2 => { $mac!(bump(0, key.as_str()), bump(1, $mk(&val)), bump(2, keys[0].as_str()) => bump(3, vals[0].as_str()), bump(4, keys[1].as_str()) => bump(5, vals[1].as_str())); }
                     3 => { $mac!(bump(0, key.as_str()), bump(1, $mk(&val)), bump(2, keys[0].as_str()) => bump(3, vals[0].as_str()), bump(4, keys[1].as_str()) => bump(5, vals[1].as_str()), bump(6, keys[2].as_str()) => bump(7, vals[2].as_str())); }
                     _ => { $mac!(bump(0, key.as_str()), bump(1, $mk(&val)),
